@@ -48,6 +48,7 @@ type Engine struct {
 	refFactsBy map[string][]*Term
 	globalRefs []string
 	extraTerms []*Term
+	symMode    int
 	obls      []*Obligation
 	assumpLog map[string]bool
 	errors    []string
@@ -226,7 +227,7 @@ func (e *Engine) freshVar(hint, srt string) *Term { return Var(e.freshName(hint)
 
 func (e *Engine) newObj(name string, t types.Type, isArr bool) *Obj {
 	e.nObj++
-	return &Obj{ID: e.nObj, Name: name, T: t, IsArr: isArr}
+	return &Obj{ID: e.nObj, Name: name, T: t, IsArr: isArr, Sym: e.symMode > 0}
 }
 
 func (e *Engine) noteAssumption(s string) { e.assumpLog[s] = true }
